@@ -28,6 +28,8 @@ type respCase struct {
 	Markers   []string          `json:"markers"` // unique texts of the page: none may appear in an error body
 	Fails     bool              `json:"fails"`   // the page is expected to fail (by construction)
 	Custom    string            `json:"custom"`  // none | valid | missing | failing
+	// Defaults: NewTemplate(nil) over templates/*.tw.html, the documented defaults (no custom page, debug off)
+	Defaults bool `json:"defaults,omitempty"`
 	Note      string            `json:"note,omitempty"`
 }
 
@@ -61,8 +63,12 @@ var defaultErrorPageSrc = func() string {
 
 func c17Run(c *harness.Check, cs respCase) string {
 	tr := tree.Tree{}
+	dir, ext := "t", ".tw"
+	if cs.Defaults {
+		dir, ext = "templates", ".tw.html"
+	}
 	for n, src := range cs.Files {
-		tr["t/"+n+".tw"] = tree.Entry{Content: src}
+		tr[dir+"/"+n+ext] = tree.Entry{Content: src}
 	}
 	root, err := tree.Materialise(tr)
 	if err != nil {
@@ -71,7 +77,11 @@ func c17Run(c *harness.Check, cs respCase) string {
 	var failure string
 	pi := c.Guard("json", mustJSON(cs), func() {
 		textwire.VerifReset()
-		tpl, lerr := textwire.NewTemplate(&config.Config{TemplateDir: "t", TemplateExt: ".tw", ErrorPagePath: cs.ErrorPage, DebugMode: cs.Debug})
+		conf := &config.Config{TemplateDir: "t", TemplateExt: ".tw", ErrorPagePath: cs.ErrorPage, DebugMode: cs.Debug}
+		if cs.Defaults {
+			conf = nil
+		}
+		tpl, lerr := textwire.NewTemplate(conf)
 		if lerr != nil {
 			failure = "harness: tree does not load: " + lerr.Error()
 			return
@@ -112,7 +122,7 @@ func c17Run(c *harness.Check, cs respCase) string {
 			}
 		}
 		// which page must the body be?
-		pageAbs := filepath.Join(root, "t", cs.Page+".tw")
+		pageAbs := filepath.Join(root, dir, cs.Page+ext)
 		builtin := func() string {
 			out, err := textwire.EvaluateString(defaultErrorPageSrc, map[string]any{"path": ferr.Filepath(), "line": ferr.Line(), "message": ferr.Message(), "debugMode": cs.Debug})
 			if err != nil {
@@ -218,7 +228,7 @@ func c17Page(rt *rapid.T) (files map[string]string, page string, markers []strin
 
 func TestC17_Configurations(t *testing.T) {
 	c := harness.New(t, "C17", "configurations",
-		"all combinations of {debug on, off} x {no custom error page, a working one, one that does not exist, one that fails at run time} x generated pages {succeeding (plain, with layout and component); failing at run time after 1..4 uniquely marked chunks at top level, inside a loop pass, inside a layout's insert, inside a component argument, inside a slot body; not existing} x data: success -> nil and body == String(); failure -> non-nil error, no marker of the failed page in the body, body == custom page (working one, debug off) / empty (custom page itself fails, debug off) / built-in page (rendered differentially from default-error-page.tw with the failure's fields); debug off -> neither message nor any path in the body; debug on -> message, path and line in it. Non-trivial: failing page and a non-default configuration. Distinct by hash.")
+		"all combinations of {debug on, off} x {no custom error page, a working one, one that does not exist, one that fails at run time} x generated pages {succeeding (plain, with layout and component); failing at run time after 1..4 uniquely marked chunks at top level, inside a loop pass, inside a layout's insert, inside a component argument, inside a slot body; not existing} x data: success -> nil and body == String(); failure -> non-nil error, no marker of the failed page in the body, body == custom page (working one, debug off) / empty (custom page itself fails, debug off) / built-in page (rendered differentially from default-error-page.tw with the failure's fields); debug off -> neither message nor any path in the body; debug on -> message, path and line in it. One case in eight uses no configuration at all (NewTemplate(nil) over templates/*.tw.html): the documented defaults, debug off and no custom page, apply. Non-trivial: failing page and a non-default configuration, or the defaults. Distinct by hash.")
 	defer c.Finish()
 	runRapid(t, c, 3000, 30000, func(rt *rapid.T) {
 		files, page, markers, fails, note := c17Page(rt)
@@ -236,8 +246,14 @@ func TestC17_Configurations(t *testing.T) {
 			files["errors/broken"] = "<h1>BROKEN-PAGE-MARK</h1>{{ zzUndefined }}"
 			cs.Markers = append(cs.Markers, "BROKEN-PAGE-MARK")
 		}
-		nt := fails && (cs.Debug || cs.Custom != "none")
-		c.Case(nt, mustJSON(cs), "shape:"+note, "custom:"+cs.Custom, fmt.Sprintf("debug:%v", cs.Debug))
+		if rapid.IntRange(0, 7).Draw(rt, "defaults") == 0 {
+			// the documented defaults: no configuration at all
+			cs.Defaults, cs.Debug, cs.Custom, cs.ErrorPage = true, false, "none", ""
+			delete(files, "errors/custom")
+			delete(files, "errors/broken")
+		}
+		nt := fails && (cs.Debug || cs.Custom != "none" || cs.Defaults)
+		c.Case(nt, mustJSON(cs), "shape:"+note, "custom:"+cs.Custom, fmt.Sprintf("debug:%v", cs.Debug), fmt.Sprintf("defaults:%v", cs.Defaults))
 		if nt {
 			c.Sample(map[string]any{"page": files["page"], "shape": note, "custom": cs.Custom, "debug": cs.Debug})
 		}
